@@ -154,7 +154,13 @@ impl HttpConn {
                     self.write_http_continue().await?;
                 }
                 self.read_state = ReadState::Head;
-                read_http_body_to_vec((&mut self.buf).chain(&mut self.stream), len_usize).await
+                let result =
+                    read_http_body_to_vec((&mut self.buf).chain(&mut self.stream), len_usize).await;
+                if result.is_err() {
+                    // Some or all of the body is unread.  The next bytes are not a request.
+                    self.read_state = ReadState::Shutdown;
+                }
+                result
             }
             ReadState::Body {
                 len: None,
@@ -209,7 +215,13 @@ impl HttpConn {
                     self.write_http_continue().await?;
                 }
                 self.read_state = ReadState::Head;
-                read_http_body_to_file((&mut self.buf).chain(&mut self.stream), len, dir).await
+                let result =
+                    read_http_body_to_file((&mut self.buf).chain(&mut self.stream), len, dir).await;
+                if result.is_err() {
+                    // Some or all of the body is unread.  The next bytes are not a request.
+                    self.read_state = ReadState::Shutdown;
+                }
+                result
             }
             ReadState::Body {
                 len: None,
